@@ -6,7 +6,8 @@ C11 line protocol (token `fs`).  Contents: `-` absent, `C<v>.<n>` complete, `T<k
 Events: `c:<se 0/1>:<v>:<n>:<len>:<cp>` checkpoint, `t:<w>:<len>:<e>:<cp>` training/weights save
 (`<e>` = what torch.load raises on a prefix of this file: R|O|E|U|F);
 torn weights files are written `T<k><e>`;
-`<cp>` = `-` (completed) | `<j>` (killed before operation j) | `<j>.<k>` (killed inside operation j after k bytes).
+`<cp>` = `-` (completed) | `<j>` (killed before operation j) | `<j>.<k>` (killed inside operation j after k bytes),
+each optionally followed by `~<f>`: a written-but-unclosed file had `f` bytes on disk at the kill.
 
   fs hist <std|ins> <ev>*          -> state after the history and what a resume does
   fs ops <std|ins> <ev> <ev>*      -> operations the FIRST event performs when run after the others
@@ -58,13 +59,16 @@ def parseKind? : String → Option Kind
 
 def parseCp? (s : String) : Option (Option CrashPt) :=
   if s == "-" then some none else
-  match s.splitOn "." with
-  | [j] => j.toNat?.map fun j => some ⟨j, none⟩
-  | [j, k] => do
+  let (body, fl) := match s.splitOn "~" with
+    | [b, f] => (b, f.toNat?)
+    | _ => (s, some 0)
+  match fl, body.splitOn "." with
+  | some f, [j] => j.toNat?.map fun j => some ⟨j, none, f⟩
+  | some f, [j, k] => do
     let j ← j.toNat?
     let k ← k.toNat?
-    pure (some ⟨j, some k⟩)
-  | _ => none
+    pure (some ⟨j, some k, f⟩)
+  | _, _ => none
 
 def parseEv? (s : String) : Option Ev :=
   match s.splitOn ":" with
